@@ -35,7 +35,7 @@ VARIABLES ansi,     \* BOOLEAN: the output decorates (ANSI) or not (plain); fixe
           pre,      \* lines on the output before any section wrote
           content,  \* P: Seq (sections in creation order) of Seq(line)
           plog,     \* P, plain mode: every line written so far, in call order
-          gate,     \* P: Seq of [quiet : BOOLEAN, verb : 0..4]  per section
+          gate,     \* P: Seq of [quiet : BOOLEAN, verb : 0..4, ind : Nat]  per section
           secs,     \* A: Seq of [content : Seq(line), lines : Nat]
           term,     \* the terminal (environment)
           last      \* the last operation as an event record [op, s, lines, n, ops]
@@ -51,7 +51,11 @@ POverwrite(cs, i, ls) == [cs EXCEPT ![i] = ls]
 
 \* Output._may_write: quiet suppresses everything; a flag asks for at least that verbosity (0 = always)
 MayWrite(g, flag) == ~g.quiet /\ (flag = 0 \/ g.verb >= flag)
-NewGate == [quiet |-> FALSE, verb |-> 0]
+NewGate == [quiet |-> FALSE, verb |-> 0, ind |-> 0]
+\* indentation set on a section: every line of a message is shown behind `ind` blanks (the empty line stays blank);
+\* Stored = what the section keeps (all lines indented), Printed = what the first print emits (empty lines bare)
+Stored(ls, k) == [j \in 1..Len(ls) |-> Blanks(k) \o ls[j]]
+Printed(ls, k) == [j \in 1..Len(ls) |-> IF ls[j] = <<>> THEN <<>> ELSE Blanks(k) \o ls[j]]
 
 ExpectedScreen(p, cs, w) == Visible(FoldAll(p \o Concat(cs), w))
 ExpectedPlain(p, log, w) == Visible(FoldAll(p \o log, w))
@@ -74,9 +78,9 @@ Emitted(ls) == FoldLeft(LAMBDA acc, x : acc \o (IF x = <<>> THEN <<OpLF>> ELSE <
 PopOps(ss, i, extra) == LET n == extra + SumLines(ss, i + 1) IN IF n > 0 THEN <<OpCUU(n), OpED(0)>> ELSE <<>>
 Below(ss, i) == Concat([k \in 1..(Len(ss) - i) |-> ss[i + k].content])
 
-AWrite(ss, i, ls, w) ==
-  [ops  |-> PopOps(ss, i, 0) \o Emitted(ls) \o Emitted(Below(ss, i)),
-   secs |-> [ss EXCEPT ![i] = [content |-> @.content \o ls, lines |-> @.lines + SumRows(ls, w)]]]
+AWrite(ss, i, ls, w, k) ==                                  \* k: the section's indentation
+  [ops  |-> PopOps(ss, i, 0) \o Emitted(Printed(ls, k)) \o Emitted(Below(ss, i)),
+   secs |-> [ss EXCEPT ![i] = [content |-> @.content \o Stored(ls, k), lines |-> @.lines + SumRows(Stored(ls, k), w)]]]
 
 AClear(ss, i) ==
   IF ss[i].content = <<>> THEN [ops |-> <<>>, secs |-> ss]
@@ -93,9 +97,9 @@ AClearN(ss, i, n, w) ==
        IN [ops  |-> PopOps(ss, i, rows) \o Emitted(Below(ss, i)),
            secs |-> [ss EXCEPT ![i] = [content |-> SubSeq(c, 1, keep), lines |-> left]]]
 
-AOverwrite(ss, i, ls, w) ==                                 \* clear(); write_line(message)
+AOverwrite(ss, i, ls, w, k) ==                              \* clear(); write_line(message)
   LET a == AClear(ss, i)
-      b == AWrite(a.secs, i, ls, w)
+      b == AWrite(a.secs, i, ls, w, k)
   IN [ops |-> a.ops \o b.ops, secs |-> b.secs]
 
 \* plain mode: the section degrades to an ordinary output; nothing is recorded, clears do nothing
@@ -126,12 +130,15 @@ Suppressed(op, i, n) == IF op = "write" THEN ~MayWrite(gate[i], n) ELSE gate[i].
 Effect(op, i, ls, n) ==
   IF Suppressed(op, i, n) THEN [pc |-> content, pl |-> plog, a |-> PlainNothing(secs)]
   ELSE IF ansi THEN
-    CASE op = "write"     -> [pc |-> PWrite(content, i, ls),     pl |-> plog, a |-> AWrite(secs, i, ls, term.w)]
-      [] op = "overwrite" -> [pc |-> POverwrite(content, i, ls), pl |-> plog, a |-> AOverwrite(secs, i, ls, term.w)]
+    CASE op = "write"     -> [pc |-> PWrite(content, i, Stored(ls, gate[i].ind)), pl |-> plog,
+                              a |-> AWrite(secs, i, ls, term.w, gate[i].ind)]
+      [] op = "overwrite" -> [pc |-> POverwrite(content, i, Stored(ls, gate[i].ind)), pl |-> plog,
+                              a |-> AOverwrite(secs, i, ls, term.w, gate[i].ind)]
       [] op = "clear"     -> [pc |-> PClear(content, i),         pl |-> plog, a |-> AClear(secs, i)]
       [] op = "clearn"    -> [pc |-> PClearN(content, i, n),     pl |-> plog, a |-> AClearN(secs, i, n, term.w)]
   ELSE
-    CASE op \in {"write", "overwrite"} -> [pc |-> content, pl |-> plog \o ls, a |-> PlainWrite(secs, ls)]
+    CASE op \in {"write", "overwrite"} -> [pc |-> content, pl |-> plog \o Printed(ls, gate[i].ind),
+                                           a |-> PlainWrite(secs, Printed(ls, gate[i].ind))]
       [] OTHER                         -> [pc |-> content, pl |-> plog,       a |-> PlainNothing(secs)]
 
 Do(op, i, ls, n) ==
@@ -148,14 +155,17 @@ Create ==
   /\ last' = Event("create", Len(secs) + 1, NoLines, 0, <<>>)
   /\ UNCHANGED <<ansi, pre, plog, term>>
 
-\* set_quiet / set_verbosity on one section: no output, no change of content
+\* set_quiet / set_verbosity / indent on one section: no output, no change of content
 SetGate(op, i, n) ==
   /\ i \in 1..Len(secs)
-  /\ gate' = IF op = "quiet" THEN [gate EXCEPT ![i].quiet = (n = 1)] ELSE [gate EXCEPT ![i].verb = n]
+  /\ gate' = CASE op = "quiet" -> [gate EXCEPT ![i].quiet = (n = 1)]
+               [] op = "verb" -> [gate EXCEPT ![i].verb = n]
+               [] OTHER -> [gate EXCEPT ![i].ind = n]          \* "indent"
   /\ last' = Event(op, i, NoLines, n, <<>>)
   /\ UNCHANGED <<ansi, pre, content, plog, secs, term>>
 SetQuiet(i, q) == SetGate("quiet", i, IF q THEN 1 ELSE 0)
 SetVerbosity(i, v) == v \in {0, 1, 2, 4} /\ SetGate("verb", i, v)
+SetIndent(i, k) == SetGate("indent", i, k)
 
 WriteLine(i, ls) == Do("write", i, ls, 0)
 WriteLineFlag(i, ls, flag) == Do("write", i, ls, flag)
